@@ -74,6 +74,32 @@ func ruleC20_2(c *Ctx) {
 		res, _, _ := in.Run(fn, nil, nil)
 		R.Check(res != nil && normAgg(res) == "{1,0,$param:x,0,1,$param:y}", "generate.Translate", c.FPos(fn), "{1,0,x,0,1,y}", normAgg(res))
 	}
+	// Scale: no factor is the identity, one factor scales both axes, two (or more) scale x and y
+	if fn := c.Fn("generate", "Scale"); fn != nil && len(fn.Params) == 1 {
+		for k := 0; k <= 3; k++ {
+			in := c.Interp()
+			vt := fn.Params[0].Type()
+			arg := &sym.Term{Op: "slice", Args: []*sym.Term{sym.Atom("param:v", vt), sym.Int(0), sym.Int(int64(k))}, T: vt}
+			res, _, _ := in.Run(fn, []*sym.Term{arg}, nil)
+			want := "{1,0,0,0,1,0}"
+			switch {
+			case k == 1:
+				want = "{v0,0,0,0,v0,0}"
+			case k >= 2:
+				want = "{v0,0,0,0,v1,0}"
+			}
+			got := "-"
+			if res != nil {
+				got = normAgg(res)
+				for i := 0; i < 3; i++ {
+					got = strings.ReplaceAll(got, fmt.Sprintf("$init:deref:$param:v[%d]", i), fmt.Sprintf("v%d", i))
+					got = strings.ReplaceAll(got, fmt.Sprintf("index($param:v,%d)", i), fmt.Sprintf("v%d", i))
+					got = strings.ReplaceAll(got, fmt.Sprintf("index(slice($param:v,0,%d),%d)", k, i), fmt.Sprintf("v%d", i))
+				}
+			}
+			R.Check(got == want, fmt.Sprintf("generate.Scale#factors=%d", k), c.FPos(fn), want, got)
+		}
+	}
 	// Concat: identity start and composition step
 	if fn := c.Fn("generate", "Concat"); fn != nil {
 		in := c.Interp()
